@@ -105,6 +105,59 @@ def reload_part(ck, tier):
                           "posterior_over_T": [float(want[k]) for k in bad[:1]], "saved_at_length": 7}, site=f"{cname}.load:ProbsBelong")
 
 
+def short_trajectory_part(ck, tier):
+    """HamiltonianChain with the shortest trajectories (chain.steps = 1, 2, 3: zero to three leap-frog steps per proposal, so the loop of
+    the integrator runs not at all or once): after EVERY step ProbsBelong at every index, rows recorded earlier unchanged, the mode a
+    recorded sample of maximal recorded log-probability, the caller's start array unchanged"""
+    from inference.mcmc import HamiltonianChain
+    n = 3
+    post = GaussPost(n)
+    for steps in (1, 2, 3):
+        for bounded in (False, True):
+            for T in (1.0, 3.0):
+                ck.case(("short-trajectory", steps, bounded, T))
+                ident = {"class": "HamiltonianChain", "chain.steps": steps, "bounds": bounded, "temperature": T}
+                start = np.array([0.5, -0.25, 1.5])
+                keep = start.copy()
+                try:
+                    kw = {"bounds": (np.full(n, -3.0), np.full(n, 4.0))} if bounded else {}
+                    ch = HamiltonianChain(posterior=post, grad=post.grad, start=start, epsilon=0.3, temperature=T, display_progress=False, **kw)
+                    ch.rng = np.random.default_rng(seed() + 900 + steps)
+                    ch.steps = steps
+                    prev_S = np.asarray(ch.get_sample(burn=0), dtype=float).reshape(-1, n).copy()
+                    bad = None
+                    for k in range(25 if tier == "quick" else 80):
+                        ch.take_step()
+                        S = np.asarray(ch.get_sample(burn=0), dtype=float).reshape(-1, n).copy()
+                        P = np.asarray(ch.get_probabilities(burn=0), dtype=float).ravel().copy()
+                        want = np.array([post(x) / T for x in S])
+                        wrong = [int(i) for i in range(len(P)) if not abs(P[i] - want[i]) <= 1e-12 * max(1.0, abs(want[i]))]
+                        if len(S) != len(prev_S) + 1 or len(P) != len(S):
+                            bad = ("one step appends one sample and one log-probability", {"samples": len(S), "log_probabilities": len(P)})
+                        elif not np.array_equal(S[:-1], prev_S):
+                            bad = ("rows recorded earlier are unchanged by a later step",
+                                   {"first_changed_row": int(np.flatnonzero(np.any(S[:-1] != prev_S, axis=1))[0])})
+                        elif wrong:
+                            bad = ("ProbsBelong at every index", {"first_bad_index": wrong[0], "stored": float(P[wrong[0]]), "posterior_over_T": float(want[wrong[0]])})
+                        else:
+                            m = np.asarray(ch.mode(), dtype=float).ravel()
+                            rows = [i for i in range(len(S)) if np.array_equal(S[i], m)]
+                            if not rows or not any(P[i] == P.max() for i in rows):
+                                bad = ("the mode is a recorded sample whose recorded log-probability is the maximum", {"mode": m.tolist()})
+                        if bad:
+                            bad[1]["after_step"] = k + 1
+                            break
+                        prev_S = S
+                    if bad is None and not np.array_equal(start, keep):
+                        bad = ("the caller's start array is unchanged", {"start_now": start.tolist()})
+                except Exception as ex:
+                    ck.violation("a HamiltonianChain with short trajectories raised", {**ident, "error": repr(ex)[:300]}, site="HamiltonianChain.take_step:short")
+                    continue
+                if bad:
+                    ck.violation(bad[0] + " (HamiltonianChain with zero to three leap-frog steps per proposal)", {**ident, **bad[1]},
+                                 site="HamiltonianChain.take_step:short")
+
+
 def reload_ensemble_part(ck, tier):
     """ProbsBelong and history integrity of the ensemble sampler across save / load / advance"""
     import tempfile
@@ -490,6 +543,7 @@ def run(tier):
     hmcstep.run_part(ck, tier)
     ownership_part(ck, tier)
     reload_part(ck, tier)
+    short_trajectory_part(ck, tier)
     reload_ensemble_part(ck, tier)
     defaults_part(ck, tier)
     interrupted_part(ck, tier)
